@@ -78,9 +78,14 @@ def c_lab(ctx, it, cfg):
     l1 = mod.env['labyrinth'](M, F, labyrinth_factor=1).get(0)
     ctx.prove('factor-1-equals-upper-wiener', eq(l1, wu))
     n = real(ctx, 'n', lambda v: v >= 1)
+    sM, sF = snapshot(M), snapshot(F)
     ln = mod.env['labyrinth'](M, F, labyrinth_factor=n).get(0)
     ctx.prove('never-exceeds-upper-wiener', le(ln, wu))
     ctx.prove('non-negative', ge(ln, 0))
+    # the arrays may be the ones held in the composition cache: the rule must leave them alone, so that the same point evaluated again gives the same answer
+    unchanged(ctx, 'arg:mobility', sM, M)
+    unchanged(ctx, 'arg:fractions', sF, F)
+    ctx.prove('same-point-evaluated-again-gives-the-same-value', eq(mod.env['labyrinth'](M, F, labyrinth_factor=n).get(0), ln))
     h = it.get(HP, 'HomogenizationParameters')()
     h.setLabyrinthFactor(real(ctx, 'requested'))
     ctx.prove('factor-clipped-to-[1,2]', between(1, h.labyrinthFactor, 2))
@@ -154,6 +159,14 @@ def c_post(ctx, it, cfg):
         ctx.prove('exclude/fraction[%d]-%s' % (i, 'of-the-NAMED-phase-zeroed' if i == k else 'kept'), eq(F2.get(i), 0 if i == k else f[i]))
     M3, F3 = mod.env['_postProcessExcludePhases'](therm, M2, F2, [named], phases=NP.array(stable))
     ctx.prove('exclude/second-evaluation-changes-nothing', and_(*[eq(F3.get(i), F2.get(i)) for i in range(p)]))
+    # several excluded phases, in either order: exactly the named phases lose their fraction
+    if p >= 3:
+        others = [n for n in stable if n != named]
+        for order in ([named, others[-1]], [others[-1], named], [others[0], named, others[-1]][:p]):
+            rows, f, und = fresh('exc%d_' % len(order) + order[0][:3] + '_')
+            M, F = arrs(rows, f)
+            M2, F2 = mod.env['_postProcessExcludePhases'](therm, M, F, list(order), phases=NP.array(stable))
+            ctx.prove('exclude/several-phases[%s]/exactly-the-named-fractions-zeroed' % ','.join(order), and_(*[eq(F2.get(i), 0 if stable[i] in order else f[i]) for i in range(p)]))
     # a phase the user named that is not stable at this point: nothing to do, no error (single-phase regions!)
     rows, f, und = fresh('abs_')
     M, F = arrs(rows, f)
